@@ -6,6 +6,12 @@ open HandlerStore Drv
 
 ```
 init mem <max|_>        | init sql                                  → ok
+init mem <negative>                                                 → raise:ValueError   (store unchanged)
+init mem d              (the constructor's default bound)           → ok
+T                       (`_terminal_queue`, oldest first)           → queue <ids>
+L                       (the table in store order, unsorted)        → list <table>
+R                       (reopen: a new store object on the same data) → ok|<table>
+B start count wf status (upserts of `count` bare handlers)          → n <rows> <terminal rows>
 U id wf status run err res started updated completed idle           → ok|<table>
 S run status res err idle now          (idle: u = unset, _ = None)  → ok|<table>
 Q hid run wf st idle    (lists: _ none, e empty, 1,2,3; idle _/0/1) → rows <result>
@@ -73,13 +79,36 @@ def showRow (h : Handler) : String :=
 def showRows (rows : List Handler) : String :=
   ";".intercalate ((rows.mergeSort (fun a b => a.handlerId ≤ b.handlerId)).map showRow)
 
+def parseMax? (s : String) : Option (Option Int) :=
+  if s == "_" then some none else (s.toInt?).map some
+
+def bulk (s : Store) (start wf st : Nat) : Nat → Store
+  | 0 => s
+  | n + 1 => bulk (s.update { handlerId := start, workflowName := wf, status := st }) (start + 1) wf st n
+
 def step (s : Store) (line : String) : Store × String :=
   match line.splitOn " " with
   | ["init", "sql"] => (Store.init .sql, "ok")
+  | ["init", "mem", "d"] =>
+    match Store.initMemDefault? with
+    | some s' => (s', "ok")
+    | none => (s, "raise:ValueError")
   | ["init", "mem", m] =>
-    match parseOpt? m with
-    | some m => (Store.init (.mem m), "ok")
+    match parseMax? m with
+    | some m =>
+      match Store.initMem? m with
+      | some s' => (s', "ok")
+      | none => (s, "raise:ValueError")
     | none => (s, "bad-op")
+  | ["T"] => (s, "queue " ++ ",".intercalate (s.queue.map toString))
+  | ["L"] => (s, "list " ++ ";".intercalate (s.rows.map showRow))
+  | ["R"] => (s, "ok|" ++ showRows s.rows)
+  | ["B", a, n, wf, st] =>
+    match a.toNat?, n.toNat?, wf.toNat?, st.toNat? with
+    | some a, some n, some wf, some st =>
+      let s' := bulk s a wf st n
+      (s', "n " ++ toString s'.rows.length ++ " " ++ toString (s'.rows.filter (·.terminal)).length)
+    | _, _, _, _ => (s, "bad-op")
   | "U" :: rest =>
     match parseHandler? rest with
     | some h => let s' := s.update h; (s', "ok|" ++ showRows s'.rows)
